@@ -114,7 +114,7 @@ func VerifC16_MatchSemantics() {
 //vf:expect reach=one reach=two
 func VerifC16_ClassicRoundTrip() {
 	n := 1 + vfChoice("matchers", 2)
-	maxLen := 2 + vfTier()
+	maxLen := 2 // (both tiers: three-byte values of two matchers took a quarter of an hour alone)
 	var ms Matchers
 	names := []string{"foo", "bar_2"}
 	for i := 0; i < n; i++ {
